@@ -6,7 +6,7 @@
      normalise : N -> cstate -> cstate            what a save followed by a load does to a state
      wf : cstate -> Prop                          the invariants of a loaded / scanned array (CodecRoundTrip.wf)       *)
 From Coq Require Import NArith List.
-From Snap.Codec Require Import Varint CodecModel CodecProofs CodecRoundTrip CodecExample.
+From Snap.Codec Require Import Varint CodecModel CodecProofs CodecRoundTrip CodecRewrite CodecExample.
 Import ListNotations.
 Local Open Scope N_scope.
 
@@ -70,6 +70,28 @@ Theorem C10_rewrite_reproduces_refuted :
     exists s', decode (conf_of s) (encode now s) = Ok s' /\ encode now s' <> encode now s.
 Proof. exact rewrite_reproduces_refuted. Qed.
 Print Assumptions C10_rewrite_reproduces_refuted.
-(* with a clock that is not behind, the bytes are reproduced (instance) *)
-Example C10_rewrite_reproduces_example : encode (T0 + 100) (normalise (T0 + 100) ex_state) = encode (T0 + 100) ex_state.
-Proof. exact ex_rewrite_reproduces. Qed.
+(* PROVED instead: the rewrite reproduces the bytes whenever no info time of a used position is ahead of the clock (nor
+   below the time base of the file, which only a zero time can be).  `pinfo s` is the info array as the writer sees it
+   (unused positions cleared), the fold is info_oldest of state_write_content. *)
+Definition unclamped (now : N) (s : cstate) : Prop :=
+  Forall (fun i => i <> 0 -> fold_left oldest_step (pinfo s) 0 <= info_time i /\ info_time i <= now) (pinfo s).
+
+Theorem C10_rewrite_reproduces_partial : forall now s, wf s -> 8 <= now -> unclamped now s ->
+  encode now (normalise now s) = encode now s.
+Proof. exact rewrite_reproduces_unclamped. Qed.
+Print Assumptions C10_rewrite_reproduces_partial.
+
+(* ... hence: loading a file written by the tool and saving it again at the same clock gives the same bytes *)
+Theorem C10_rewrite_byte_identical : forall now s, wf s -> 8 <= now -> unclamped now s ->
+  exists s', decode (conf_of s) (encode now s) = Ok s' /\ encode now s' = encode now s.
+Proof.
+  intros now s W Hnow Hu. exists (normalise now s). split; [apply decode_encode_rt; assumption|apply rewrite_reproduces_unclamped; assumption].
+Qed.
+Print Assumptions C10_rewrite_byte_identical.
+
+Example C10_unclamped_satisfiable : wf ex_state /\ 8 <= T0 + 100 /\ unclamped (T0 + 100) ex_state.
+Proof.
+  split; [exact ex_wf|]. split; [vm_compute; discriminate|].
+  unfold unclamped. assert (E : pinfo ex_state = [T0 + 4; T0 + 8 + 1; T0 - 80 + 2; 0]) by (vm_compute; reflexivity).
+  rewrite E. repeat constructor; intros _; vm_compute; split; discriminate.
+Qed.
